@@ -103,12 +103,15 @@ def replay(case):
                         sol = ode.trapezoidal_rule(A, x0, g_, steps, repeats=1, tt_solver=solver, threshold=0,
                                                    max_rank=np.inf, micro_solver=micro, normalize=normalize, progress=False)
                     else:
-                        if normalize:
+                        if normalize == 1:
                             continue
+                        # with normalisation every state the scheme produces has unit norm, the start-up state included; a previous
+                        # value handed over by the caller is given with unit norm (in a representation that is not orthonormal)
+                        prev_ = prev if not normalize else (1.0 / float(np.linalg.norm(vec(prev)))) * prev
                         # an odd order is documented to be rounded up to the next even one
                         sol = ode.hod(A, x0, steps[0], len(steps), order=2 * cfg['m'] - (1 if len(steps) == 1 else 0),
-                                      previous_value=prev if with_prev else None,
-                                      threshold=0, max_rank=200, normalize=0, progress=False)
+                                      previous_value=prev_ if with_prev else None,
+                                      threshold=0, max_rank=200, normalize=normalize, progress=False)
                     if sch == 'hod' and not normalize:
                         # the precomputed scheme operator 2 sum_j h^(2j-1)/(2j-1)! A^(2j-1) handed over by the caller
                         import math
@@ -137,6 +140,8 @@ def replay(case):
                                 break
                     res = check_trajectory(sol, x0, Ad, steps, sch, P, isl, normalize, with_prev, prev, dims)
                     for sig, msg in res:
+                        if sch == 'hod' and normalize:
+                            sig = 'normalize:' + sig
                         out.append(('%s:%s:%s' % (tag, sig, kind), '%s (dims %r, steps 2^-%r, normalize=%d)' % (msg, dims, cfg['steps'], normalize)))
                     if res:
                         break
@@ -174,9 +179,13 @@ def check_trajectory(sol, x0, Ad, steps, sch, P, isl, normalize, with_prev, prev
                     Q = poly_mat(isl['start']['Q'], Z)
                     R = poly_mat(isl['start']['R'], Z)
                     xm1 = xs[0] - Q @ (R @ xs[0])
+                if normalize:
+                    xm1 = xm1 / np.linalg.norm(xm1)
             else:
                 xm1 = xs[k - 1]
             want = xm1 + inc @ xs[k]
+            if normalize:
+                want = want / np.linalg.norm(want)
             scale = max(np.linalg.norm(xm1), np.linalg.norm(xs[k]))
             if np.linalg.norm(xs[k + 1] - want) > 1e-9 * scale:
                 return [('recurrence', 'step %d violates x_{k+1} = x_{k-1} + 2 sum h^(2j-1)/(2j-1)! A^(2j-1) x_k%s: defect %.3e' % (
